@@ -109,7 +109,7 @@ type ChildOpts struct {
 }
 
 func scratchDir() string {
-	d := filepath.Join(evid.Root(), ".scratch")
+	d := filepath.Join(evid.OutRoot(), ".scratch")
 	_ = os.MkdirAll(d, 0o755)
 	return d
 }
